@@ -40,7 +40,7 @@ def run(ctx) -> None:
         # pause / resume dimension (plain and synthetic-stage workflows): implementation-only as well
         synth_suites.run_for(ctx, "C17", family="pause")
         # concurrency limit / purge / cancel flag set before the start (store.cancel): implementation-only, several workflows
-        conc_suite.run_for(ctx, "C17")
+        conc_suite.run_for(ctx, "C17", kinds=("conc", "region", "flag"))
     except BaseException:
         pairs["pool"].terminate()
         raise
